@@ -504,11 +504,25 @@ Print Assumptions impl_burst7.
             if v.get("fingerprint") == "crc7-differs-from-bitwise":
                 m = v["input"]
                 best = m
-                for i in range(len(m)):
-                    for j in range(i + 1, len(m) + 1):
-                        sub = m[i:j]
-                        if len(sub) < len(best) and call(mod, sub, 0) != ("ok", ref_crc(sub)):
+
+                def fails(sub):
+                    return call(mod, sub, 0) != ("ok", ref_crc(sub))
+                # long messages: cut from the back, then from the front, by halving steps (a failure that needs its length keeps it)
+                for cut_front in (False, True):
+                    step = len(best) // 2
+                    while step >= 1 and len(best) > 48:
+                        sub = best[step:] if cut_front else best[:len(best) - step]
+                        if sub and fails(sub):
                             best = sub
+                        else:
+                            step //= 2
+                m2 = best
+                if len(m2) <= 48:
+                    for i in range(len(m2)):
+                        for j in range(i + 1, len(m2) + 1):
+                            sub = m2[i:j]
+                            if len(sub) < len(best) and fails(sub):
+                                best = sub
                 if best is not m:
                     v["input"] = best
                     v["expected"] = ref_crc(best)
